@@ -1,7 +1,8 @@
 (** Extraction of the C04 models (ExtrOcamlBasic only). *)
 From Coq Require Import ZArith List.
 From Coq Require Import ExtrOcamlBasic.
-From Webp Require Vp8.Vp8Bool Vp8.Vp8Tables Vp8.Vp8Syntax Vp8.Vp8Kernels Vp8.Vp8Recon Vp8.Vp8Filter Vp8.Vp8Spec Vp8.Vp8Upsample Vp8.Vp8BoolEnc.
+From Webp Require Vp8.Vp8Bool Vp8.Vp8Tables Vp8.Vp8Syntax Vp8.Vp8Kernels Vp8.Vp8Recon Vp8.Vp8Filter Vp8.Vp8Spec Vp8.Vp8Upsample Vp8.Vp8BoolEnc Vp8.Vp8Rgb.
+From Webp Require Conform.ConformFile.
 
 Separate Extraction
   BinInt.Z.add BinInt.Z.mul BinInt.Z.sub BinInt.Z.opp BinInt.Z.div BinInt.Z.modulo
@@ -13,5 +14,6 @@ Separate Extraction
   Vp8.Vp8Kernels.go_wht Vp8.Vp8Kernels.go_simple_seg Vp8.Vp8Kernels.go_loop26_seg Vp8.Vp8Kernels.go_loop24_seg
   Vp8.Vp8Kernels.add_residual Vp8.Vp8Upsample.upsample_pair
   Vp8.Vp8Kernels.go_fstrength Vp8.Vp8Kernels.lf_mb_params Vp8.Vp8Kernels.subedge_limit
+  Vp8.Vp8Rgb.decode_rgb Conform.ConformFile.alpha_decode
   Vp8.Vp8BoolEnc.bw_init Vp8.Vp8BoolEnc.bw_put Vp8.Vp8BoolEnc.bw_put_uniform Vp8.Vp8BoolEnc.bw_put_bits
   Vp8.Vp8BoolEnc.bw_put_signed Vp8.Vp8BoolEnc.bw_finish Vp8.Vp8BoolAbs.rfc_bits Vp8.Vp8Bool.bd_init.
